@@ -147,6 +147,9 @@ func c06(c *Ctx) {
 	}
 	r.Expl = "Structural clauses behind 'method mocks replace exactly the named method': the per-builder cache key of a struct/interface mocker is identity bearing (never reflect.Type.String()); the per-type method caches are keyed by exactly the requested name; for exported methods the patched origin is MethodByName(n).Func for the very name stored in the mocker, passed unchanged through proxy and patch; for unexported methods the symbol name is pkg.(*T).m / pkg.T.m built from the receiver kind, and symbol matching is exact (C10). Dispatch for value receivers and generic shapes at run time is not decided."
 	r.RuleText = "one obligation per (rule, lookup / call site / format)"
+	// R8: the helpers that derive type and package names for by-name method lookups do not call Elem() where their own kind
+	// test has ruled a pointer out
+	checkElemUnderKindBelief(p, r, "C06.R8", func(rel string) bool { return rel == "" })
 	r.Floor("C06.R1", 1)
 	r.Floor("C06.R2", 3)
 	r.Floor("C06.R3", 4)
